@@ -3,6 +3,7 @@ import GwModel.Gen.Facts
 import GwModel.Point
 import GwModel.FindPtsInsert
 import GwModel.FindPtsStitch
+import GwModel.FindPtsFamily
 /-! # C01 — Federated execution is transparent: gateway data equals monolith data
 
 Proved here (model `Tr`, GwModel/Trans): for the core query class (fields, aliases, nested selections,
@@ -100,5 +101,22 @@ theorem every_object_gets_its_own_answer (infos : List Fp.PInfo) (chunk : Ins.KV
   intro p hp
   obtain ⟨o, hw⟩ := hx p (hsub p hp)
   exact ⟨o, hw, hmine p hp o hw⟩
+
+/-- **two levels.**  A step's reply `P` is stitched at its own insertion point `ip` into the accumulated response
+    (where the object found does not yet hold the field the dependent's path starts with); the places of a dependent
+    step are computed from `P` alone, as the executor does; its follow-up answers are then stitched below `ip` in any
+    order.  Every insertion succeeds, and each object `P` delivered ends up with exactly its own follow-up answer: the
+    places computed from a reply are the right places in the accumulated response. -/
+theorem a_step_and_its_follow_ups (acc : Ins.J) (ip : List Fp.RPt) (o P : Ins.KVs) (hPs : Ins.Sorted P)
+    (hip : Fp.walk acc ip = some (.obj o)) (i0 : Fp.PInfo) (infos : List Fp.PInfo)
+    (hfresh : Ins.lookup i0.key o = none) (paths : List (List Fp.RPt))
+    (hfind : Fp.findPts (i0 :: infos) P [] = .ok paths) (hc : Fp.Conf (i0 :: infos) P)
+    (payload : List Fp.RPt → Ins.KVs) (l : List (List Fp.RPt)) (hsub : ∀ p ∈ l, p ∈ paths)
+    (hnd : (l.map Fp.sig).Nodup) :
+    ∃ acc' final, Ins.insertAt acc (ip.map Fp.toPt) (.obj P) = some acc' ∧
+      (l.map (ip ++ ·)).foldl (Fp.stitchOne payload) (some acc') = some final ∧
+      ∀ p ∈ l, ∃ o', Fp.walk (.obj P) p = some (.obj o') ∧
+        Fp.walk final (ip ++ p) = some (.obj (Ins.mergeK o' (payload (ip ++ p)))) :=
+  Fp.parent_then_children acc ip o P hPs hip i0 infos hfresh paths hfind hc payload l hsub hnd
 
 end Props.C01
